@@ -48,6 +48,13 @@ class Run(OpsMixin, CallsMixin):
         self.dict_key_type = {}   # address sexpr -> declared key type of a dict
         self.list_elem_type = {}  # address sexpr -> declared element type of a list
         self.tagsets = {}         # value sexpr -> tags allowed by its declared type
+        self.inst_done = {}
+        self.pc_seen = set()
+        self.region = {}          # address sexpr -> private list region (local, non-escaping lists)
+        self.local_lists = set()
+        self.alloc_region = None
+        self.known_cls = {}       # address sexpr -> class id (classes never change after allocation)
+        self.cls_terms = {}
 
     # ------------------------------------------------------------------ basics
     def fresh(self, name, sort=None):
@@ -57,7 +64,15 @@ class Run(OpsMixin, CallsMixin):
     def field(self, name):
         if name not in self.heap:
             self.heap[name] = z3.Const('H0_' + name, field_sort(name))
+            self.len_axiom(name)
         return self.heap[name]
+
+    def len_axiom(self, name):
+        """Heap typing invariant: list lengths and dict sizes are non-negative (assumed for every fresh heap version)."""
+        if name.split('@')[0] in ('list.len', 'dict.n'):
+            a = z3.Int('a!len')
+            arr = self.heap[name]
+            self.assume(z3.ForAll([a], z3.Select(arr, a) >= 0, patterns=[z3.Select(arr, a)]))
 
     def class_id(self, name):
         if name in CLS:
@@ -75,14 +90,57 @@ class Run(OpsMixin, CallsMixin):
             for c in cond.children():
                 self.assume(c)
             return
-        self.pc.append(cond)
         sx = cond.sexpr()
+        if sx in self.pc_seen:
+            return
+        self.pc_seen.add(sx)
+        self.pc.append(cond)
         # path-feasibility pruning uses the quantifier-free part of the path condition only (fewer assumptions can
         # only make more paths look feasible, never fewer); obligations are always discharged under the full pc
         if 'forall' not in sx and 'exists' not in sx and 'lambda' not in sx:
             self.solver.add(cond)
         self.pc_hash.update(sx.encode())
         self._note_tags(cond)
+
+    def instantiate(self, term):
+        """Assume the instance at `term` of every universally quantified path fact with one Int-sorted bound
+        variable (sound: an instance of a universal fact).  Gives the quantifier-free feasibility solver and the
+        typing heuristics the facts about the element actually being accessed."""
+        term = z3.simplify(term)
+        key = term.sexpr()
+        done = self.inst_done.setdefault(key, set())
+        for idx, fact in enumerate(list(self.pc)):
+            if idx in done:
+                continue
+            if z3.is_quantifier(fact) and fact.is_forall() and fact.num_vars() == 1 and fact.var_sort(0) == I:
+                done.add(idx)
+                body = z3.substitute_vars(fact.body(), term)
+                self.assume(body)
+
+    def tracked_addresses(self):
+        """Addresses of the objects the function talks about directly: reference-valued variables and declared globals."""
+        out = []
+        fr = self.frames[0]
+        for v in list(fr.env.values()) + [f.env.get(k) for f in self.frames[1:] for k in f.env]:
+            if isinstance(v, z3.ExprRef) and v.sort() == Value and \
+                    (static_tag(v) == 'VRef' or self.tagcache.get(v.sexpr()) == 'VRef'):
+                out.append(z3.simplify(Value.a(v)))
+        for key in self.eng.globals_decl:
+            g = z3.simplify(z3.Select(self.field('glob'), self.global_addr(key)))
+            out.append(z3.simplify(Value.a(g)))
+        seen, res = set(), []
+        for a in out:
+            if a.sexpr() not in seen:
+                seen.add(a.sexpr())
+                res.append(a)
+        return res
+
+    def instantiate_frames(self):
+        """After a havoc: assume the instances of the (quantified) frame axioms at the tracked addresses."""
+        if self.spec_mode:
+            return
+        for a in self.tracked_addresses():
+            self.instantiate(a)
 
     def _note_tags(self, cond):
         """Remember `is_T(v)` facts on the path so that spec expressions can be typed without asking the solver."""
@@ -93,6 +151,25 @@ class Run(OpsMixin, CallsMixin):
             elif z3.is_app(cond) and cond.decl().kind() == z3.Z3_OP_DT_IS:
                 ctor = cond.decl().params()[0].name()
                 self.tagcache[cond.arg(0).sexpr()] = ctor
+            elif z3.is_eq(cond):
+                # cls[addr] == n : the class of an object never changes once allocated
+                l, r = cond.arg(0), cond.arg(1)
+                if z3.is_int_value(l):
+                    l, r = r, l
+                if z3.is_int_value(r) and z3.is_app(l) and l.decl().kind() == z3.Z3_OP_SELECT:
+                    arr = l.arg(0)
+                    while z3.is_app(arr) and arr.decl().kind() == z3.Z3_OP_STORE:
+                        arr = arr.arg(0)
+                    if z3.is_const(arr) and 'cls' in arr.decl().name():
+                        key = l.arg(1).sexpr()
+                        if key not in self.known_cls:
+                            self.known_cls[key] = r.as_long()
+                            self.cls_terms[key] = l.arg(1)
+                            # objects of different classes are different objects (classes never change)
+                            if len(self.cls_terms) <= 60:
+                                for k2, t2 in list(self.cls_terms.items()):
+                                    if k2 != key and self.known_cls[k2] != r.as_long():
+                                        self.assume(l.arg(1) != t2)
         except Exception:
             pass
 
@@ -146,6 +223,12 @@ class Run(OpsMixin, CallsMixin):
     def oblige(self, goal, kind, tag, node=None, props=None, note=''):
         """Record a proof obligation `pc => goal` and continue under the assumption that it holds."""
         goal_s = z3.simplify(goal) if not z3.is_quantifier(goal) else goal
+        goal_s = self.expand_exists(goal_s)
+        if z3.is_and(goal_s) and goal_s.num_args() > 1:
+            # one query per conjunct (same clause id): small goals are what the solver is good at
+            for c in goal_s.children():
+                self.oblige(c, kind, tag, node, props, note)
+            return
         if not self.ch.replaying:
             ob = Obligation(self.oid(tag), kind, list(self.pc), goal_s, self.where(node) if node is not None else '',
                             self.contract.target or self.contract.name,
@@ -154,6 +237,22 @@ class Run(OpsMixin, CallsMixin):
         if z3.is_false(goal_s):
             raise PathEnd()
         self.assume(goal_s)
+
+    def expand_exists(self, g, depth=0):
+        """Or(A, Exists q. B(q))  ==  Or(A, Exists q. B(q), B(t1), B(t2)) for any terms t: offering the current loop
+        positions as explicit witnesses is logically neutral and spares the solver the instantiation search."""
+        terms = getattr(self, 'witness_terms', [])
+        if not terms or depth > 3:
+            return g
+        if z3.is_quantifier(g) and g.is_exists() and g.num_vars() == 1 and g.var_sort(0) == I:
+            return z3.Or([g] + [z3.substitute_vars(g.body(), t) for t in terms])
+        if z3.is_or(g):
+            return z3.Or([self.expand_exists(c, depth + 1) for c in g.children()])
+        if z3.is_and(g):
+            return z3.And([self.expand_exists(c, depth + 1) for c in g.children()])
+        if z3.is_app(g) and g.decl().kind() == z3.Z3_OP_IMPLIES:
+            return z3.Implies(g.arg(0), self.expand_exists(g.arg(1), depth + 1))
+        return g
 
     def snippet(self, node):
         s = ast.unparse(node)
@@ -170,7 +269,7 @@ class Run(OpsMixin, CallsMixin):
     def declared_tags(self, ty):
         ty = ty.strip()
         out = set()
-        for t in ty.split('|'):
+        for t in _split_top(ty, '|'):
             t = t.strip()
             if t in ('int', 'nat'):
                 out.add('VInt')
@@ -203,8 +302,9 @@ class Run(OpsMixin, CallsMixin):
 
     def type_constraint(self, v, ty):
         ty = ty.strip().strip("'\"")
-        if '|' in ty:
-            return z3.Or([self.type_constraint(v, t) for t in ty.split('|')])
+        alts = _split_top(ty, '|')
+        if len(alts) > 1:
+            return z3.Or([self.type_constraint(v, t) for t in alts])
         if ty.startswith('Optional[') and ty.endswith(']'):
             return z3.Or(Value.is_VNone(v), self.type_constraint(v, ty[9:-1]))
         if ty in ('any', 'Any', 'object'):
@@ -291,6 +391,7 @@ class Run(OpsMixin, CallsMixin):
                 env[cl.extra['name']] = self.sym_param(cl.extra['name'], cl.extra['type'])
             self.frames.append(Frame(fn, rel, env, contract))
             self.check_loop_names()
+            self.local_lists = find_local_lists(fn) if contract.kind != 'lemma' else set()
             for cl in contract.of('requires'):
                 self.assume(self.ev_spec(cl.expr))
             if not self.feasible(z3.BoolVal(True) if not self.pc else self.pc[-1]):
@@ -300,7 +401,7 @@ class Run(OpsMixin, CallsMixin):
             self.mods = []
             for cl in contract.of('modifies'):
                 for e in cl.extra['exprs']:
-                    self.mods.append(Value.a(self.val(self.ev_spec_val(e))))
+                    self.mods.append(self.mod_pred(e))
             self.entry_measure = None
             dec = contract.of('decreases')
             if dec:
@@ -414,7 +515,15 @@ class Run(OpsMixin, CallsMixin):
         raise ContinueSig()
 
     def st_Assign(self, st):
-        v = self.ev(st.value)
+        local = (len(st.targets) == 1 and isinstance(st.targets[0], ast.Name)
+                 and st.targets[0].id in self.local_lists and len(self.frames) == 1)
+        if local:
+            # the list created by this statement is allocated directly in its private region (see lfield)
+            self.alloc_region = st.targets[0].id
+        try:
+            v = self.ev(st.value)
+        finally:
+            self.alloc_region = None
         for t in st.targets:
             self.assign(t, v)
 
@@ -557,6 +666,18 @@ class Run(OpsMixin, CallsMixin):
                 continue
             fr.env[n] = self.fresh(n)
         fields = self.written_fields(node.body, fr.rel)
+        # private list regions are havocked only when the body mutates that very variable
+        for nm in sorted(self.local_lists):
+            touched = False
+            for st in node.body:
+                for n in ast.walk(st):
+                    if isinstance(n, ast.Name) and n.id == nm:
+                        touched = True
+            if touched:
+                for which in ('len', 'items'):
+                    f = 'list.%s@%s' % (which, nm)
+                    if f in self.heap:
+                        fields.add(f)
         self.havoc_heap(fields, self.mods_now())
 
     def mods_now(self):
@@ -573,11 +694,13 @@ class Run(OpsMixin, CallsMixin):
             old = self.field(f)
             new = self.fresh('H_' + f, field_sort(f))
             self.heap[f] = new
+            self.len_axiom(f)
             limit = self.entry.alloc if self.entry is not None else pre_alloc
-            conds = [a >= 0, a < limit] + [a != m for m in mods]
+            conds = [a >= 0, a < limit] + [z3.Not(m(a)) for m in mods]
             body = z3.Implies(z3.And(conds), z3.Select(new, a) == z3.Select(old, a))
             self.assume(z3.ForAll([a], body, patterns=[z3.Select(new, a)]))
         self.alloc = new_alloc
+        self.instantiate_frames()
 
     def st_While(self, st):
         spec = self.loop_spec(st)
@@ -681,6 +804,8 @@ class Run(OpsMixin, CallsMixin):
             if saved_k is not None:
                 fr.env[kname] = saved_k
             return
+        self.instantiate(k)
+        self.witness_terms = [k, k - 1] + getattr(self, 'witness_terms', [])[:2]
         self.assign(st.target, it.item(self, k))
         try:
             self.exec_block(st.body)
@@ -696,6 +821,55 @@ class Run(OpsMixin, CallsMixin):
         raise PathEnd()
 
 
+def is_val_term(v):
+    return isinstance(v, z3.ExprRef) and v.sort() == Value
+
+
+def find_local_lists(fn):
+    """Names assigned exactly once, from a list display / list() / [x] * n, and otherwise used only as the subject
+    of subscripts, len(), truth tests, `for` iteration or list-method calls - never passed, returned or stored."""
+    assigns, bad = {}, set()
+    parents = {}
+    for node in ast.walk(fn):
+        for ch in ast.iter_child_nodes(node):
+            parents[ch] = node
+    for node in ast.walk(fn):
+        if isinstance(node, ast.Name):
+            par = parents.get(node)
+            if isinstance(node.ctx, ast.Store):
+                if isinstance(par, ast.Assign) and len(par.targets) == 1 and par.targets[0] is node:
+                    v = par.value
+                    ok = isinstance(v, ast.List) or \
+                        (isinstance(v, ast.Call) and isinstance(v.func, ast.Name) and v.func.id == 'list' and not v.args) or \
+                        (isinstance(v, ast.BinOp) and isinstance(v.op, ast.Mult) and isinstance(v.left, ast.List))
+                    if ok and node.id not in assigns:
+                        assigns[node.id] = par
+                    else:
+                        bad.add(node.id)
+                else:
+                    bad.add(node.id)
+            elif isinstance(node.ctx, ast.Load):
+                ok = False
+                if isinstance(par, ast.Subscript) and par.value is node:
+                    ok = True
+                elif isinstance(par, ast.Call) and isinstance(par.func, ast.Name) and par.func.id == 'len' \
+                        and par.args == [node]:
+                    ok = True
+                elif isinstance(par, ast.Attribute) and par.value is node and par.attr in ('append', 'extend', 'insert') \
+                        and isinstance(parents.get(par), ast.Call) and parents[par].func is par:
+                    ok = True
+                elif isinstance(par, (ast.If, ast.While)) and par.test is node:
+                    ok = True
+                elif isinstance(par, ast.UnaryOp) and isinstance(par.op, ast.Not):
+                    ok = True
+                elif isinstance(par, ast.For) and par.iter is node:
+                    ok = True
+                if not ok:
+                    bad.add(node.id)
+    args = {a.arg for a in fn.args.args}
+    return {n for n in assigns if n not in bad and n not in args}
+
+
 def _load(target):
     import copy
     t = copy.deepcopy(target)
@@ -705,14 +879,14 @@ def _load(target):
     return t
 
 
-def _split_top(s):
+def _split_top(s, sep=','):
     out, depth, cur = [], 0, ''
     for ch in s:
         if ch == '[':
             depth += 1
         elif ch == ']':
             depth -= 1
-        if ch == ',' and depth == 0:
+        if ch == sep and depth == 0:
             out.append(cur.strip())
             cur = ''
         else:
